@@ -29,7 +29,7 @@ func init() {
 			"the offline checker replays EVERY prefix of every command's write log onto the command's pre-state (and every permutation of the certificate uploads that precede the manifest write, because pending certificates are uploaded in Go map order), reloads a fresh gcsca.CertificateAuthority from each such store and checks: manifest parses, every listed key version resolves to a stored parseable certificate, a recorded primary signing key has a certificate that verifies under the stored root. " +
 			"non-trivial = prefixes whose store differs from the previous prefix; distinct = (command kind, store, number of writes applied, object written last, permutation id) cells; upload orders actually observed are counted",
 		Assumptions: []string{"crash granularity is one completed object write (the property's granularity); torn files are not modelled", "memca has no store and is outside C11"},
-		ShardsQuick: 4, ShardsThor: 8, TimeoutS: 900, TimeoutThor: 3600, Exhaustive: true, Run: run,
+		ShardsQuick: 8, ShardsThor: 16, TimeoutS: 1800, TimeoutThor: 3600, Exhaustive: true, Run: run,
 	})
 }
 
@@ -275,6 +275,7 @@ func run(c *core.Ctx) {
 		c.End(h)
 		os.RemoveAll(dir)
 	}
+	faulted(c, k, t0)
 	c.Count("write-prefixes-checked", k.prefixes)
 	c.Count("distinct-bootstrap-upload-orders-observed", len(orders))
 	for o := range orders {
@@ -304,4 +305,121 @@ func retryInProcess(a *authority.Assembly, skc *rotate.SigningKeyContext, newSer
 	_, err2 := rotate.Key(ctx)
 	_ = err2
 	return f.Writes, err1
+}
+
+// faulted enumerates single error faults (a call of the key manager, signer or object store that fails and is
+// reported to the command) at every position of a first bootstrap and of a rotation, under every combination of the
+// keep-going and overwrite flags. The object writes the command still performed are then checked like any other write
+// sequence: after every prefix of them (and at the end) the reloaded authority must be consistent. A command that
+// carries on after a failed upload, or that records a primary it could not certify, writes its manifest ahead of a
+// certificate it references.
+func faulted(c *core.Ctx, k *checker, t0 time.Time) {
+	type flags struct{ kg, ow bool }
+	combos := []flags{{false, false}, {true, false}, {false, true}, {true, true}}
+	stores := []string{authority.GcscaMem, authority.GcscaDisk}
+	kms := []string{authority.MemKM}
+	if c.Thorough() {
+		kms = append(kms, authority.LocalKM)
+	}
+	reached := 0
+	base := 1000
+	for _, km := range kms {
+		for _, caKind := range stores {
+			// fault-free traces
+			dir, _ := os.MkdirTemp("", "verif-c11f-")
+			a := authority.New(km, caKind, dir)
+			f0 := &doubles.FCtl{}
+			if err := a.Bootstrap(f0, authority.Opts{}, authority.DefaultBootstrap(t0)); err != nil {
+				c.Oracle(base, "rotate.Bootstrap", "fault-free-bootstrap-failed", a.Name(), "%v", err)
+				os.RemoveAll(dir)
+				continue
+			}
+			btrace := f0.Names()
+			snap := a.Snapshot()
+			skc := func() *rotate.SigningKeyContext {
+				return &rotate.SigningKeyContext{SigningKeyCommonName: "signingKeyCn", Now: t0.Add(24 * time.Hour)}
+			}
+			f1 := &doubles.FCtl{}
+			if _, err := a.Rotate(f1, authority.Opts{}, skc()); err != nil {
+				c.Oracle(base, "rotate.Key", "fault-free-rotation-failed", a.Name(), "%v", err)
+			}
+			rtrace := f1.Names()
+			c.Max("faulted/bootstrap-trace-length", int64(len(btrace)))
+			c.Max("faulted/rotation-trace-length", int64(len(rtrace)))
+			// the upload order of a bootstrap's two certificates is a map order: repeat the upload faults a few times
+			reps := func(name string) int {
+				if strings.HasPrefix(name, "storage.Write:"+authority.CertDir+"/") {
+					return 3
+				}
+				return 1
+			}
+			idx := base
+			for _, cmd := range []string{"bootstrap", "rotate"} {
+				trace := btrace
+				if cmd == "rotate" {
+					trace = rtrace
+				}
+				for pos := 1; pos <= len(trace); pos++ {
+					for _, fl := range combos {
+						for rep := 0; rep < reps(trace[pos-1]); rep++ {
+							idx++
+							if !c.Mine(idx) {
+								continue
+							}
+							gname := fmt.Sprintf("faulted %s %s+%s error@%d(%s) keep_going=%v overwrite=%v", cmd, km, caKind, pos, trace[pos-1], fl.kg, fl.ow)
+							c.Begin(idx, gname, "rotate.Bootstrap/rotate.Key", nil)
+							f := &doubles.FCtl{Faults: map[int]string{pos: doubles.FaultError}}
+							var pre *doubles.MemStore
+							var b *authority.Assembly
+							var bdir string
+							var err error
+							if cmd == "bootstrap" {
+								bdir, _ = os.MkdirTemp("", "verif-c11b-")
+								b = authority.New(km, caKind, bdir)
+								pre = storeOf(b)
+								err = b.Bootstrap(f, authority.Opts{KeepGoing: fl.kg, Overwrite: fl.ow}, authority.DefaultBootstrap(t0))
+							} else {
+								a.Restore(snap)
+								b = a
+								pre = storeOf(b)
+								_, err = b.Rotate(f, authority.Opts{KeepGoing: fl.kg, Overwrite: fl.ow}, skc())
+							}
+							c.Eval(1)
+							injected := false
+							for _, l := range f.Log {
+								if l.Result == "injected-error" {
+									injected = true
+								}
+							}
+							if injected {
+								reached++
+							}
+							k.checkWrites(idx, gname, cmd+"-with-error-fault", caKind, pre, f.Writes)
+							outcome := "consistent"
+							// the final state: in memory it is exactly pre + completed writes (checked above); on disk read it back
+							if msg := consistent(storeOf(b)); msg != "" {
+								outcome = "INCONSISTENT"
+								c.Violate(core.Violation{Kind: "oracle", Entry: cmd + "-with-error-fault", Site: "inconsistent-store-after-failed-call", Gen: gname, Case: idx,
+									Detail:  fmt.Sprintf("%s returned %v; the reloaded authority is inconsistent: %s", cmd, err, msg),
+									Witness: map[string]any{"writes": names(f.Writes), "log": f.Log}})
+							}
+							name := trace[pos-1]
+							if j := strings.Index(name, ":"); j > 0 {
+								name = name[:j]
+							}
+							c.Cell("faulted|%s|%s|%s|kg=%v|ow=%v|reached=%v|returned-error=%v|%s", cmd, caKind, name, fl.kg, fl.ow, injected, err != nil, outcome)
+							if bdir != "" {
+								os.RemoveAll(bdir)
+							}
+							c.End(idx)
+						}
+					}
+				}
+			}
+			os.RemoveAll(dir)
+			base += 1000
+		}
+	}
+	c.Count("faulted-commands-where-the-fault-was-reached", reached)
+	c.Floor("some-error-fault-reached", reached > 0)
 }
